@@ -235,6 +235,23 @@ theorem polygons_are_components {V : Type} (nx ny : Nat) (conn8 : Bool) (close :
         ConnP nx conn8 close values mask (nx * ny) (X + Y * nx) (X' + Y' * nx))) :=
   scan_polygons_components nx ny conn8 close values mask hnx hsymm htrans _ rfl
 
+/-- **Area and orientation.**  For every polygon `k`: the shoelace areas of its rings (exterior positive,
+    holes negative) add up to the number of pixels of region `k + 1` (`area2` is twice the signed area); the
+    first ring -- the exterior -- is anticlockwise (positive area) and every further ring -- a hole -- is
+    clockwise (negative area).  Discrete Green: the shoelace area of a followed ring is twice the sum over
+    the pixels of its winding number. -/
+theorem lossless_area_orientation {V : Type} (nx ny : Nat) (conn8 : Bool) (close : V → V → Bool)
+    (values : Nat → V) (mask : Nat → Bool) (hnx : 0 < nx)
+    (hsymm : ∀ a b, close a b = true → close b a = true)
+    (htrans : ∀ a b c, close a b = true → close b c = true → close a c = true) :
+    let sc := scan nx ny conn8 close values mask
+    ∀ k, k < sc.polys.length →
+      ((sc.polys.getD k []).map area2).sum =
+        2 * (((List.range (nx * ny)).countP
+          (fun p => regionId nx ny conn8 close values mask p == k + 1) : Nat) : Int) ∧
+      ∃ ext holes, sc.polys.getD k [] = ext :: holes ∧ 0 < area2 ext ∧ ∀ h ∈ holes, area2 h < 0 :=
+  scan_regions_area nx ny conn8 close values mask hnx hsymm htrans _ rfl
+
 /-! ### non-vacuity, and the full statement evaluated on concrete rasters -/
 
 def eqI (a b : Int) : Bool := a == b
@@ -291,5 +308,13 @@ example :
 example := lossless_cells 3 3 false eqI ringV (fun _ => true) (by decide) (fun a => by simp [eqI])
   (fun a b h => by simp only [eqI, beq_iff_eq] at *; exact h.symm)
   (fun a b c h1 h2 => by simp only [eqI, beq_iff_eq] at *; exact h1.trans h2)
+
+/-- `lossless_area_orientation` on the 3×3 ring: polygon 0 has an exterior of area 9 and a hole of area −1
+    (8 pixels), polygon 1 is the unit square -/
+example :
+    let sc := scan 3 3 false eqI ringV (fun _ => true)
+    (sc.polys.getD 0 []).map area2 = [18, -2] ∧ (sc.polys.getD 1 []).map area2 = [2] ∧
+      (List.range 9).countP (fun p => regionId 3 3 false eqI ringV (fun _ => true) p == 1) = 8 := by
+  decide +kernel
 
 end XrsVerif.C15
